@@ -406,16 +406,18 @@ def _handle_fn_body(body: list[ast.stmt], ctx: Context) -> sympy.Expr | None:
 
         elif isinstance(node, ast.Import):
             for alias in node.names:
-                name = alias.name
-                ctx.modules[name] = importlib.import_module(name)
+                # `import a as b` binds the module under the name b
+                name = alias.asname or alias.name
+                ctx.modules[name] = importlib.import_module(alias.name)
 
         elif isinstance(node, ast.ImportFrom):
             package = cast(str, node.module)
             module = importlib.import_module(package)
             contents = dict(inspect.getmembers(module))
             for alias in node.names:
-                name = alias.name
-                el = contents[name]
+                # `from m import a as b` binds a under the name b
+                name = alias.asname or alias.name
+                el = contents[alias.name]
                 if isinstance(el, float):
                     ctx.symbols[name] = sympy.Float(el)
                 elif callable(el):
